@@ -69,6 +69,22 @@ func findLifecycle(c *core.Ctx, r *core.Report, rule string) *lifecycleRoles {
 	return l
 }
 
+// addFactorySites: the calls registering an early factory, in the creation routine or a helper split off it.
+func addFactorySites(c *core.Ctx, l *lifecycleRoles) (out []ssa.CallInstruction) {
+	ro := c.Roles()
+	for _, fn := range c.Invokers(ro.SCRAddFactory) {
+		if !withinRole(c, fn, func(f *ssa.Function) bool { return f == l.exposer }, 3) {
+			continue
+		}
+		for _, ci := range core.Calls(fn) {
+			if core.IsInvoke(ci.Common(), ro.SCRAddFactory) && len(ci.Common().Args) == 2 {
+				out = append(out, ci)
+			}
+		}
+	}
+	return out
+}
+
 func oneSite(r *core.Report, rule, cons, what string, sites []*ssa.Call, c *core.Ctx, fn *ssa.Function) *ssa.Call {
 	if len(sites) != 1 {
 		r.Undecided(rule, cons, c.FnPos(fn), fmt.Sprintf("expected exactly one %s in %s, found %d", what, core.FnName(fn), len(sites)))
@@ -208,7 +224,7 @@ func c05(c *core.Ctx, r *core.Report) {
 		}
 		s := sites[0]
 		_, isCall := s.(*ssa.Call)
-		okIn := x.in == nil || s.Parent() == x.in
+		okIn := x.in == nil || withinRole(c, s.Parent(), func(f *ssa.Function) bool { return f == x.in }, 3) // how often the helper itself runs is the exposer table's stage-order row
 		r.Check(isCall && okIn && !core.InLoop(s.Block()), "C05.R4", cons, c.Pos(s.Pos()), x.what+" is called from exactly one synchronous site outside any loop, in the expected role function")
 	}
 
